@@ -232,8 +232,10 @@ class MESolver(SESolver):
         self._num_collapse = len(c_ops)
 
         rhs = H if H.issuper else liouvillian(H)
-        rhs += sum(c_op if c_op.issuper else lindblad_dissipator(c_op)
-                   for c_op in c_ops)
+        # Not `rhs += ...`: when `H` is a QobjEvo superoperator, `rhs` is the
+        # caller's object and the in-place addition would modify it.
+        rhs = rhs + sum(c_op if c_op.issuper else lindblad_dissipator(c_op)
+                        for c_op in c_ops)
 
         Solver.__init__(self, rhs, options=options)
 
